@@ -7,6 +7,8 @@ LSP = "ironplcc::lsp::LspServer"
 TRIAGE = {
     LSP + "::send_response|call:core::result::Result::unwrap#1":
         "Sender::send fails only when the receiving side of the connection is gone, i.e. the client has already disconnected; no answer is owed then",
+    LSP + "::handle_request|call:core::result::Result::unwrap#1":
+        "sending the MethodNotFound error response: as send_response, Sender::send fails only after the client hung up",
     LSP + "::send_notification|call:core::result::Result::unwrap#1":
         "as send_response: only fails after the client hung up",
     "ironplcc::lsp_project::map_label|assert:Overflow:Add#1": "line/column counters bounded by the document length",
